@@ -16,9 +16,12 @@ PLAN = dict(
          "AArch64 generator on Sem/A64Sem.v (BL destroys X0-X17 and the link register X30, SP alignment checked at every sp-relative access, X19-X29 and "
          "SP checked at the final RET): k = 13 is the context in which a variable lives in X29/X30",
     explanation="theorems: stack alignment at the call for every context, save/restore balance and mirroring, prologue/epilogue balance and "
-                "callee-saved set (arithmetic over the model of code.rs / into_routine.rs); survival of values across the call and the final register "
-                "file are checked by execution on the ISA model",
+                "callee-saved set (arithmetic over the model of code.rs / into_routine.rs) on x86-64 and AArch64; AArch64 additionally: SP aligned at every "
+                "SP-relative access, the saved set covers every live caller-saved register and X30 (the theorem that fails before fix b8c7d78), and ON THE ISA "
+                "SEMANTICS the print sequence preserves every live temporary of every context (C13_a64_print_preserves_context) and the epilogue restores "
+                "X19-X29, X30 and SP (C13_a64_entry_exit); x86-64 survival of values and the final register file are checked by execution; RISC-V has no print "
+                "(panics) and no prologue/epilogue (stub)",
     assumptions=["Sem/X86Sem.v external-call model = System V AMD64 ABI (callee may clobber rax rcx rdx rsi rdi r8-r11, flags, red zone and below)",
-                 "Sem/A64Sem.v external-call model = AAPCS64 (callee may clobber X0-X17, X30, NZCV); the AArch64 part of C13 is decided by execution of the real output, not by theorem"],
+                 "Sem/A64Sem.v external-call model = AAPCS64 (callee may clobber X0-X17, X30, NZCV and the stack below SP); the AArch64 theorems are about the model of the generator (correspondence-checked), the real output is additionally executed"],
     trusted=["coq/Sem/X86Sem.v", "coq/Sem/A64Sem.v", "coq/Sem/AxSem.v"],
 )
